@@ -2920,8 +2920,125 @@ func init() {
 	areas["t2font"] = genT2font
 }
 
+// D t2.fontbad: fonts of 1-6 glyphs where chosen glyphs carry a stem list of ODD length (the one error
+// encodeCharString reports). Font.Write must refuse such a font whatever the position of the bad glyph; a font without
+// a bad glyph must be written and read back (cff.Read) with the same glyphs: "refused" / "faithful".
+//   hsn=<HStem entries per glyph> vsn=<VStem entries per glyph> nfd=<font dicts>
+func t2badFont(hsn, vsn []int, nfd int) string {
+	ws := make([]int64, len(hsn))
+	for i := range ws {
+		ws[i] = int64(500+37*(i%3)) * 65536
+	}
+	font := t2widthFont(ws, nfd, map[int]bool{})
+	for i, g := range font.Glyphs {
+		g.HStem, g.VStem = nil, nil
+		for k := 0; k < hsn[i]; k++ {
+			g.HStem = append(g.HStem, float64(10*k+3*(k%2)))
+		}
+		for k := 0; k < vsn[i]; k++ {
+			g.VStem = append(g.VStem, float64(12*k+5*(k%2)))
+		}
+	}
+	want := make([]string, len(font.Glyphs))
+	for i, g := range font.Glyphs {
+		want[i] = g.Name + " " + t2showGlyph(g)
+	}
+	buf := &bytes.Buffer{}
+	if err := font.Write(buf); err != nil {
+		return "refused"
+	}
+	back, err := cff.Read(bytes.NewReader(buf.Bytes()))
+	if err != nil {
+		return "written-but-unreadable:" + strings.ReplaceAll(err.Error(), " ", "_")
+	}
+	if len(back.Glyphs) != len(want) {
+		return fmt.Sprintf("unfaithful:glyph-count-%d", len(back.Glyphs))
+	}
+	for i, g := range back.Glyphs {
+		name := g.Name
+		if nfd > 0 {
+			name = font.Glyphs[i].Name // CID-keyed fonts carry no glyph names
+		}
+		if got := name + " " + t2showGlyph(g); got != want[i] {
+			return fmt.Sprintf("unfaithful:glyph-%d", i)
+		}
+	}
+	return "faithful"
+}
+
+func init() {
+	ops["t2.fontbad"] = func(f Fields) string {
+		nfd := 0
+		if f["nfd"] != "" {
+			nfd = f.Int("nfd")
+		}
+		hsn, vsn := f.Ints("hsn"), f.Ints("vsn")
+		if len(hsn) != len(vsn) || len(hsn) == 0 {
+			return "bad-case"
+		}
+		return t2badFont(hsn, vsn, nfd)
+	}
+}
+
+func genT2fontBad(c *Ctx) {
+	r := c.Rng
+	emit := func(kind string, hsn, vsn []int, nfd int) {
+		c.Stat("t2font.bad-glyph-family", kind)
+		c.Case(Direct, "t2.fontbad", fmt.Sprintf("hsn=%s vsn=%s nfd=%d", ints(hsn), ints(vsn), nfd), true)
+	}
+	for n := 1; n <= 5; n++ {
+		for _, nfd := range []int{0, 2} {
+			zero := make([]int, n)
+			even := make([]int, n)
+			for i := range even {
+				even[i] = 2 * (i % 3)
+			}
+			emit(fmt.Sprintf("%d glyphs, all compilable", n), even, zero, nfd)
+			for pos := 0; pos < n; pos++ {
+				where := "middle"
+				if pos == 0 {
+					where = "first"
+				}
+				if pos == n-1 {
+					where = "last"
+				}
+				if n == 1 {
+					where = "only"
+				}
+				for _, odd := range []int{1, 3} {
+					hs := append([]int{}, even...)
+					hs[pos] = odd
+					emit(fmt.Sprintf("%d glyphs, odd HStem list in the %s glyph", n, where), hs, zero, nfd)
+					vs := append([]int{}, zero...)
+					vs[pos] = odd
+					emit(fmt.Sprintf("%d glyphs, odd VStem list in the %s glyph", n, where), even, vs, nfd)
+				}
+			}
+		}
+	}
+	emit("two bad glyphs, last compilable", []int{1, 2, 3, 0}, []int{0, 0, 0, 0}, 0)
+	emit("all glyphs bad", []int{1, 1, 1}, []int{1, 1, 1}, 0)
+	for i := 0; i < c.N/4; i++ {
+		n := r.Range(2, 6)
+		hs, vs := make([]int, n), make([]int, n)
+		for j := range hs {
+			hs[j], vs[j] = 2*r.Range(0, 3), 2*r.Range(0, 2)
+		}
+		if r.Chance(3, 4) {
+			p := r.Intn(n)
+			if r.Bool() {
+				hs[p]++
+			} else {
+				vs[p]++
+			}
+		}
+		emit("random", hs, vs, Pick(r, []int{0, 0, 2}))
+	}
+}
+
 func genT2font(c *Ctx) {
 	r := c.Rng
+	genT2fontBad(c)
 	emitX := func(kind string, ws []int64, nfd int, empties []int) {
 		c.Stat("t2font.family", kind)
 		c.Stat("t2font.glyphs", bucket(len(ws)))
